@@ -49,6 +49,30 @@ Definition check1 (w : world) (ref : bytes) (m : vmode) (o : wobs) : verdict :=
       else VOk
   end.
 
+(** did the accepting run tolerate a violation through a recovery? (full and latest-only modes) *)
+Definition range_of (w : world) (ref : bytes) (m : vmode) : option (nat * nat) :=
+  match latest_for w ref (List.length (w_log w)) false false with
+  | None => None
+  | Some (l, _) =>
+      match m with
+      | MFull => match first_for w ref with Some (f, _) => Some (f, l) | None => None end
+      | MLatest => Some (l, l)
+      | MFrom i => Some (i, l)
+      end
+  end.
+
+Definition run_has_recovery (w : world) (ref : bytes) (m : vmode) : bool :=
+  match range_of w ref m with
+  | None => false
+  | Some (f, l) =>
+      match initial_policy w f with
+      | None => false
+      | Some cur =>
+          existsb (fun t => match t with TRecover _ _ _ => true | _ => false end)
+                  (snd (verify_loop_tr w ref f (S (List.length (w_log w)) * 2) cur (range_entries w ref f l) []))
+      end
+  end.
+
 Definition wcase_check (c : wcase) : verdict :=
   match c with
   | WCase w ref m o => check1 w ref m o
@@ -81,7 +105,12 @@ Definition wcase_check (c : wcase) : verdict :=
       | VOk, VOk =>
           (* declaring global rules never makes verification accept what the delegation rules alone reject *)
           match o, o' with
-          | WO a, WO b => if vout_ok a && negb (vout_ok b) then VSpec 3 else VOk
+          | WO a, WO b =>
+              if vout_ok a && negb (vout_ok b) then
+                (* K14: with the global rules an entry became a violation that a recovery then tolerated
+                   (its "fix" entry is not verified, K5); without them the history is rejected *)
+                if run_has_recovery w ref m then VFinding 14 else VSpec 3
+              else VOk
           | _, _ => VSpec 9
           end
       | VOk, v => v
